@@ -183,7 +183,8 @@ func main() {
 	r.Require("matrix:same-identity-opens", "matrix:other-identity-refused", "matrix:anon-vs-auth", "matrix:domain-differs", "matrix:principal-differs",
 		"matrix:cache-key-collision-pair", "kind:wrong-slot-refused", "kind:same-aad-reversioned",
 		"http:control-accepted", "http:other-identity-refused", "http:cache-key-collision-pair", "http:sticky-control", "http:sticky-other-refused", "http:sticky-delete-other-noop",
-		"http:sticky-in-cursor-slot", "http:cursor-in-session-header", "history:probe-repeated", "history:evicted-then-accepted", "cache:0", "cache:1", "cache:4096")
+		"http:sticky-in-cursor-slot", "http:cursor-in-session-header", "history:probe-repeated", "history:evicted-then-accepted", "cache:0", "cache:1", "cache:4096",
+		"concurrent-cross-identity-lookups", "concurrent:b-overlapped-a-lookup", "concurrent:equal-key-length-pair", "concurrent:anon-vs-9-char-auth", "concurrent:quiet-server-refused")
 	r.Assume("identity equality is decided by the harness as anonymous | (domain, principal) pair equality; domains are NUL-free as the property's quantifier says")
 	r.Assume("matrix arm observes the production sealToken/openToken/sealSessionToken/openSessionToken through verif exports; http and history arms observe the real routes")
 
@@ -303,6 +304,9 @@ func main() {
 
 	// ---- history arm -----------------------------------------------------
 	historyArm(r)
+
+	// ---- concurrent arm ---------------------------------------------------
+	concurrentArm(r)
 }
 
 type pairT struct{ A, B we.Identity }
